@@ -88,6 +88,17 @@ func startServer() (*pipeListener, error) {
 			if ts != nil && st == nil {
 				m.SetTsig(ts.Hdr.Name, ts.Algorithm, 300, time.Now().Unix())
 			}
+			if ts != nil && st == dns.ErrTime {
+				// RFC 8945 5.2.3: a request with a good MAC but a time outside the window is answered
+				// NOTAUTH / BADTIME, signed (over the request MAC), with the server's clock as other data
+				now := time.Now().Unix()
+				m.Rcode = dns.RcodeNotAuth
+				m.SetTsig(ts.Hdr.Name, ts.Algorithm, 300, now)
+				t := m.IsTsig()
+				t.Error = dns.RcodeBadTime
+				t.OtherLen = 6
+				t.OtherData = fmt.Sprintf("%012x", now)
+			}
 			w.WriteMsg(m)
 			if ts != nil && st == nil && len(r.Question) == 1 && r.Question[0].Qtype == dns.TypeAXFR {
 				// a stream of envelopes: the first one was signed over the request MAC and all
@@ -120,41 +131,41 @@ func startServer() (*pipeListener, error) {
 
 type e2eCase struct {
 	Msg      msgspec.Spec
-	Key      int    // index into e2eKeys
-	Variant  string // good, edge, late, early, tampered, wrongsecret, unknownkey, casekey, none, libsigned
-	Fudge    uint16 // >= 300
-	FlipBit  int    // tampered: bit position in the message body (reduced modulo its length)
+	Key      int      // index into e2eKeys
+	Variant  string   // good, edge, late, early, tampered, wrongsecret, unknownkey, casekey, none, libsigned
+	Fudge    uint16   // >= 300
+	FlipBit  int      // tampered: bit position in the message body (reduced modulo its length)
+	Follow   []string // variants of further requests sent on the same connection (good, edge, late, early, wrongsecret)
 	UpperAlg bool
 }
 
-func exchange(l *pipeListener, req []byte) ([]byte, error) {
-	r, err := exchangeN(l, req, func([]byte) int { return 0 })
-	if len(r) == 0 {
-		return nil, err
-	}
-	return r[0], err
+// session is one client connection to the in-memory server; several requests may follow each
+// other on it.
+type session struct{ c net.Conn }
+
+func openSession(l *pipeListener) *session {
+	c := l.dial()
+	c.SetDeadline(time.Now().Add(30 * time.Second)) // watchdog only: a normal exchange takes well under a millisecond
+	return &session{c}
 }
 
-// exchangeN sends one request and reads 1 + more(first reply) replies.
-func exchangeN(l *pipeListener, req []byte, more func(first []byte) int) ([][]byte, error) {
-	c := l.dial()
-	defer c.Close()
-	c.SetDeadline(time.Now().Add(20 * time.Second)) // watchdog only: a normal exchange takes well under a millisecond
+// roundtrip sends one request and reads 1 + more(first reply) replies.
+func (s *session) roundtrip(req []byte, more func(first []byte) int) ([][]byte, error) {
 	buf := make([]byte, 2+len(req))
 	binary.BigEndian.PutUint16(buf, uint16(len(req)))
 	copy(buf[2:], req)
-	if _, err := c.Write(buf); err != nil {
+	if _, err := s.c.Write(buf); err != nil {
 		return nil, err
 	}
 	var out [][]byte
 	n := 1
 	for i := 0; i < n; i++ {
 		var lb [2]byte
-		if _, err := io.ReadFull(c, lb[:]); err != nil {
+		if _, err := io.ReadFull(s.c, lb[:]); err != nil {
 			return out, err
 		}
 		resp := make([]byte, binary.BigEndian.Uint16(lb[:]))
-		if _, err := io.ReadFull(c, resp); err != nil {
+		if _, err := io.ReadFull(s.c, resp); err != nil {
 			return out, err
 		}
 		out = append(out, resp)
@@ -165,19 +176,43 @@ func exchangeN(l *pipeListener, req []byte, more func(first []byte) int) ([][]by
 	return out, nil
 }
 
+var errStop = errors.New("session over") // the connection cannot be used any further (not a violation)
+
 func checkE2E(c e2eCase) error {
-	if c.Fudge < 300 || len(c.Msg.Question) == 0 {
+	if c.Fudge < 300 || len(c.Msg.Question) == 0 || len(c.Follow) > 4 {
 		return nil
 	}
 	l, err := startServer()
 	if err != nil {
 		return pbt.Errf("infrastructure: %v", err)
 	}
+	sess := openSession(l)
+	defer sess.c.Close()
+	for i, v := range append([]string{c.Variant}, c.Follow...) {
+		err := oneRequest(sess, c, v, i)
+		if err == errStop {
+			return nil
+		}
+		if err != nil {
+			if i > 0 {
+				return pbt.Errf("request %d on the same connection (after %v): %v", i+1, append([]string{c.Variant}, c.Follow...)[:i], err)
+			}
+			return err
+		}
+	}
+	return nil
+}
+
+// oneRequest sends the step-th request of the case (variant v) over the session and judges the
+// handler's observation and the reply.
+func oneRequest(sess *session, c e2eCase, variant string, step int) error {
+	c.Variant = variant
 	key := e2eKeys[((c.Key%len(e2eKeys))+len(e2eKeys))%len(e2eKeys)]
 	// a plain query the server will route to the handler: QUERY opcode, exactly one question, not a response
 	spec := c.Msg
+	spec.ID += uint16(step) * 257
 	spec.Response, spec.Opcode, spec.Rcode = false, 0, 0
-	spec.Question = spec.Question[:1]
+	spec.Question = append([]msgspec.Q(nil), spec.Question[:1]...)
 	if c.Variant == "multi" {
 		spec.Question[0] = msgspec.Q{Name: spec.Question[0].Name, Type: dns.TypeAXFR, Class: 1}
 	} else if spec.Question[0].Type == dns.TypeAXFR {
@@ -253,18 +288,24 @@ func checkE2E(c e2eCase) error {
 		}
 		return nil, false
 	}
-	refOK := false
+	refOK, timeOnly := false, false
 	if c.Variant != "none" {
-		refOK = ref.TsigVerify(req, ring, nil, false, now, false).OK
+		v := ref.TsigVerify(req, ring, nil, false, now, false)
+		refOK = v.OK
+		timeOnly = !v.OK && v.Why == "outside the fudge window" // the MAC is right, only the time is not
 	}
-	pbt.Note(append([]byte(c.Variant+"|"+key.name+"|"), packed...), c.Variant != "none" && c.Variant != "good",
-		"variant="+c.Variant, "key="+key.name, fmt.Sprintf("ref-accepts=%v", refOK))
+	if step == 0 {
+		pbt.Note(append([]byte(fmt.Sprintf("%s|%v|%s|", c.Variant, c.Follow, key.name)), packed...), c.Variant != "none" && c.Variant != "good" || len(c.Follow) > 0,
+			"variant="+c.Variant, "key="+key.name, fmt.Sprintf("ref-accepts=%v", refOK), fmt.Sprintf("requests-on-conn=%d", 1+len(c.Follow)))
+	} else {
+		pbt.Class("followup="+c.Variant, fmt.Sprintf("followup-ref-accepts=%v", refOK))
+	}
 
 	extra := 0
 	if c.Variant == "multi" {
 		extra = 1 + int(binary.BigEndian.Uint16(req)%3)
 	}
-	resps, xerr := exchangeN(l, req, func(first []byte) int {
+	resps, xerr := sess.roundtrip(req, func(first []byte) int {
 		if mp, e := ref.Walk(first); e == nil && mp.AR > 0 && mp.RRs[len(mp.RRs)-1].Type == ref.TypeTSIG {
 			return extra // the handler only streams after a verified request, which it answers with a signed first envelope
 		}
@@ -277,7 +318,7 @@ func checkE2E(c e2eCase) error {
 	if xerr != nil {
 		if c.Variant == "tampered" {
 			pbt.Class("tampered-request-not-answered") // the flip made the question undecodable: the server answers FORMERR or drops
-			return nil
+			return errStop
 		}
 		return pbt.Errf("no reply from the server for variant %q: %v", c.Variant, xerr)
 	}
@@ -294,7 +335,7 @@ func checkE2E(c e2eCase) error {
 	if obs == "" {
 		if c.Variant == "tampered" {
 			pbt.Class("tampered-request-rejected-before-handler")
-			return nil
+			return errStop
 		}
 		return pbt.Errf("reply carries no handler observation (variant %q, rcode %d)", c.Variant, rm.Rcode)
 	}
@@ -320,6 +361,22 @@ func checkE2E(c e2eCase) error {
 		return pbt.Errf("ResponseWriter.TsigStatus() = %q for a correctly signed, timely request (variant %q, key %s, alg %s, fudge %d, time signed now%+d)", obs, c.Variant, key.name, key.alg, c.Fudge, int64(t.TimeSigned)-int64(now))
 	}
 	if !verified {
+		if has && timeOnly && canonicalName {
+			// good MAC, bad time: the handler signs a BADTIME answer; its MAC covers the MAC of *this*
+			// request (RFC 8945 5.2.3 / 5.3.2). Judged with the reference HMAC only: the library's
+			// client side reports every NOTAUTH message as ErrAuth before looking at the MAC.
+			if !strings.HasSuffix(obs, "status="+dns.ErrTime.Error()) {
+				return pbt.Errf("ResponseWriter.TsigStatus() = %q for a request with a correct MAC whose time signed is now%+d (fudge %d); want ErrTime", obs, int64(t.TimeSigned)-int64(now), c.Fudge)
+			}
+			rv := ref.TsigVerify(resp, ring, reqMAC, false, uint64(time.Now().Unix()), false)
+			if !rv.OK {
+				return pbt.Errf("the BADTIME reply signed by the handler does not verify against the MAC of the request it answers (reference: %s)", rv.Why)
+			}
+			if rv.Tsig.Error != 18 || len(rv.Tsig.OtherData) != 6 {
+				return pbt.Errf("BADTIME reply carries TSIG error %d and %d octets of other data", rv.Tsig.Error, len(rv.Tsig.OtherData))
+			}
+			pbt.Class("badtime-reply-verified")
+		}
 		return nil
 	}
 	// the signed reply: TSIG last, MAC over request MAC | reply | variables, inside the window
@@ -367,6 +424,9 @@ func genE2E(t *rapid.T) e2eCase {
 	c.Fudge = rapid.OneOf(rapid.Just(uint16(300)), rapid.Uint16Range(300, 65535)).Draw(t, "fudge")
 	c.FlipBit = rapid.IntRange(0, 1<<20).Draw(t, "flipbit")
 	c.UpperAlg = rapid.IntRange(0, 3).Draw(t, "upperalg") == 0
+	if rapid.IntRange(0, 2).Draw(t, "reuse") == 0 {
+		c.Follow = rapid.SliceOfN(rapid.SampledFrom([]string{"good", "good", "edge", "late", "early", "wrongsecret"}), 1, 3).Draw(t, "follow")
+	}
 	return c
 }
 
